@@ -17,7 +17,7 @@ from vx.units.c20len import expand, SRC, EXP
 from vx.units.c20ser import JVMS, BE, UTY, EMPTY, elem_name, fields_of, subst_fields, type_graph, reach, cycle_of, flats
 
 PROPS = ['C20']
-RLIMIT = 80
+RLIMIT = 250
 VERUS_ARGS = ['--num-threads', '16']
 
 W2T = {1: 'u8', 2: 'u16', 4: 'u32'}
